@@ -31,8 +31,14 @@ def _release_stage(pid, tier, seed, V, log):
                 l = l.strip()
                 if l and not l.startswith("#"):
                     corpus.append(l.split("\t")[0].replace(" dev ", " rel ", 1))
-    out = subprocess.run([cgh, "replay"], input="\n".join(corpus) + "\n", capture_output=True, text=True, timeout=3000).stdout
-    out += subprocess.run([cgh, "gen", pid, "quick", str(seed + 7)], capture_output=True, text=True, timeout=3000).stdout
+    outp = os.path.join(V, ".build", "run", "cgh-release-%d.out" % os.getpid())
+    os.makedirs(os.path.dirname(outp), exist_ok=True)
+    env2 = dict(env, CGH_OUT=outp)        # results go to a file: the library prints to stdout in places
+    subprocess.run([cgh, "replay"], input="\n".join(corpus) + "\n", capture_output=True, text=True, timeout=3000, env=env2)
+    out = open(outp, errors="replace").read()
+    subprocess.run([cgh, "gen", pid, "quick", str(seed + 7)], capture_output=True, text=True, timeout=3000, env=env2)
+    out += open(outp, errors="replace").read()
+    os.remove(outp)
     cases = [l.split("\t") for l in out.split("\n") if l]
     drv = os.path.join(V, "lean", ".lake", "build", "bin", "cgdrv")
     rep = subprocess.run([drv], input="\n".join(c[0] for c in cases) + "\n", capture_output=True, text=True, timeout=3000).stdout.split("\n")
